@@ -473,6 +473,15 @@ def _apply_op(rng, op, path):
             os.utime(path, ns=(st.st_atime_ns, st.st_mtime_ns))
     elif op in ("remove", "remove_then_again"):
         os.remove(path)
+    elif op == "replace_by_dir":
+        os.remove(path)
+        os.mkdir(path)
+    elif op == "replace_by_dir_keep_mtime":
+        os.remove(path)
+        os.mkdir(path)
+        os.utime(path, ns=(st.st_atime_ns, st.st_mtime_ns))
+    elif op == "chmod_000":
+        os.chmod(path, 0)
 
 
 def _refreshed_runs(ctx, n):
@@ -733,6 +742,9 @@ def _oracle_sites(ctx, per_kind):
 # E3: compute_inp_hashes (the guard in front of StepHash.from_inp) versus model/HashSkip.v
 # ---------------------------------------------------------------------------------------------
 
+E3_OPS = REFRESH_OPS + ["replace_by_dir", "chmod_000", "replace_by_dir_keep_mtime"]
+
+
 def _header_skip():
     return (HEADER + "From SV Require Import model.HashSiteTypes gen.GenHashSites model.HashSites "
             "model.HashSkipTypes gen.GenHashSkip model.HashSkip.\n"
@@ -747,19 +759,20 @@ def _header_skip():
 
 def _e3_inp_guard(ctx):
     """Real files, the real compute_inp_hashes over one or two recorded paths (sorted order; changed,
-    vanished, never-present inputs) against compute_inp_hashes of model/HashSkip.v: same outcome
-    (quiet / messages / ConsistencyError) and the same all_hashes, field by field."""
+    vanished, never-present inputs, inputs replaced by a directory or stripped of all permissions) against
+    compute_inp_hashes of model/HashSkip.v: same outcome (quiet / messages / an exception leaves the function)
+    and the same all_hashes, field by field."""
     import threading
 
-    from stepup.core.exceptions import ConsistencyError
+    from stepup.core.exceptions import ConsistencyError, HashFailedError
     from stepup.core.hash import FileHash, compute_inp_hashes
     rng = ctx.rng
-    n = ctx.scale(45, 450)
+    n = ctx.scale(54, 540)
     checks, descr = [], []
     with tempfile.TemporaryDirectory(prefix="verif-c13-g-") as d:
         prepared = []
         for k in range(n):
-            op = REFRESH_OPS[k % len(REFRESH_OPS)]
+            op = E3_OPS[k % len(E3_OPS)]
             path = os.path.join(d, f"g{k:04d}")
             if op != "start_unknown_missing":
                 with open(path, "wb") as fh:
@@ -770,10 +783,17 @@ def _e3_inp_guard(ctx):
             _apply_op(rng, op, path)
             if op == "remove_then_again":
                 old = old.refreshed(path)
+            # what is under the path now: missing / readable file / can be stat'ed but not read
             try:
-                st, data = os.stat(path), open(path, "rb").read()
+                st = os.stat(path)
             except OSError:
                 st, data = None, None
+            else:
+                try:
+                    with open(path, "rb") as fh:
+                        data = fh.read()
+                except OSError:
+                    data = None
             prepared.append((op, path, old, st, data))
         for k, first in enumerate(prepared):
             entries = [first]
@@ -786,21 +806,27 @@ def _e3_inp_guard(ctx):
             try:
                 res = compute_inp_hashes({p: o for _, p, o, _, _ in entries}, threading.Event())
                 code, allh = (1 if res.messages else 0), list(res.all_hashes.items())
-            except ConsistencyError:
+            except (ConsistencyError, HashFailedError, OSError):
                 code, allh = 2, []
-            disk = "(fun p => " + "".join(
-                f"if str_eqb p {q_str(p)} then "
-                + ("None" if s is None else
-                   f"Some (mk_fstat {s.st_mode} {_mtime_bits(s.st_mtime)} {s.st_size} {s.st_ino}, "
-                   f"{q_str(hashlib.sha256(dt).digest())})")
-                + " else " for _, p, _, s, dt in entries) + "None)"
+
+            def q_obs(s, dt):
+                if s is None:
+                    return "DMissing"
+                q_st = f"(mk_fstat {s.st_mode} {_mtime_bits(s.st_mtime)} {s.st_size} {s.st_ino})"
+                return f"DUnreadable {q_st}" if dt is None else f"DFile {q_st} {q_str(hashlib.sha256(dt).digest())}"
+            disk = "(fun p => " + "".join(f"if str_eqb p {q_str(p)} then {q_obs(s, dt)} else "
+                                          for _, p, _, s, dt in entries) + "DMissing)"
             olds = "[" + "; ".join(f"({q_str(p)}, {q_fhash(o)})" for _, p, o, _, _ in entries) + "]"
             term = f"compute_inp_hashes (fun d => d) {disk} {olds}"
             want_all = "[" + "; ".join(f"({q_str(p)}, {q_fhash(h)})" for p, h in allh) + "]"
             tail = "true" if code == 2 else f"all_eqb (all_of ({term})) {want_all}"
             checks.append(f"(outcome_code ({term}) =? {code}) && {tail}")
-            descr.append({"ops": [e[0] for e in entries], "outcome": ["quiet", "messages", "ConsistencyError"][code],
-                          "olds": [repr(e[2]) for e in entries], "exists": [e[3] is not None for e in entries]})
+            descr.append({"ops": [e[0] for e in entries], "outcome": ["quiet", "messages", "raises"][code],
+                          "olds": [repr(e[2]) for e in entries],
+                          "under_path": ["missing" if e[3] is None else "unreadable" if e[4] is None else "file"
+                                         for e in entries]})
+            if any(e[3] is not None and e[4] is None for e in entries):
+                ctx.count("inp_guard_with_unreadable_input")
             ctx.case(("inp-guard", tuple(descr[-1]["ops"]), code), True)
             ctx.count("inp_guard_" + descr[-1]["outcome"])
     bad = common.run_cases(ctx, "inpguard", _header_skip(), checks, chunk=100)
@@ -1320,6 +1346,14 @@ def _oracle_guard(ctx):
             "present-recorded-unknown": {present: FileHash.unknown()},
             "mixed": {present: rec, gone: FileHash.unknown()},
         }
+        asdir = os.path.join(d, "asdir")
+        with open(asdir, "wb") as fh:
+            fh.write(b"was a file")
+        rec_dir = FileHash.unknown().refreshed(asdir)
+        os.remove(asdir)
+        os.mkdir(asdir)
+        cases["replaced-by-directory"] = {asdir: rec_dir}
+        cases["replaced-by-directory-and-unchanged"] = {asdir: rec_dir, present: rec}
         with open(present, "ab") as fh:
             pass
         for name, olds in cases.items():
@@ -1362,8 +1396,91 @@ def _oracle_guard(ctx):
                         "is not guaranteed by this source", witness={"source": what})
 
 
+def _oracle_concurrent_digests(ctx, nfile, nround):
+    """Hash computations run in ThreadWorker threads, one per job in flight.  N jobs hashing different
+    multi-chunk files at the same time (real ThreadWorker + compute_inp_hashes + FileHash.refreshed +
+    compute_file_digest, and plain threads on compute_file_digest) must each get hashlib.sha256 of their
+    own file, must not report an untouched file as changed, and distinct contents must not share a digest."""
+    import asyncio
+    import functools
+    import threading
+
+    from stepup.core.hash import HASH_CHUNK_SIZE, FileHash, compute_file_digest, compute_inp_hashes
+    from stepup.core.run import ThreadWorker
+    rng = ctx.rng
+    with tempfile.TemporaryDirectory(prefix="verif-c13-t-") as d:
+        files = {}
+        for i in range(nfile):
+            path = os.path.join(d, f"big{i}.bin")
+            data = rng.randbytes(rng.choice([9, 17, 24]) * HASH_CHUNK_SIZE + rng.randrange(1, 5000))
+            with open(path, "wb") as fh:
+                fh.write(data)
+            files[path] = hashlib.sha256(data).digest()
+        recorded = {}
+        for path, want in files.items():   # one at a time
+            recorded[path] = FileHash.unknown().refreshed(path)
+            if recorded[path].digest != want:
+                ctx.add_failure("oracle", "digest:sequential", "oracle:file-digest:not-sha256-of-content:sequential",
+                                "FileHash.refreshed of a multi-chunk file, alone, is not hashlib.sha256 of its content",
+                                witness={"size": os.path.getsize(path), "expected": want.hex(),
+                                         "got": recorded[path].digest.hex()})
+                return
+
+        async def jobs():
+            workers = [ThreadWorker(work=functools.partial(compute_inp_hashes, {p: h}), job_i=k)
+                       for k, (p, h) in enumerate(recorded.items())]
+            return await asyncio.wait_for(asyncio.gather(*(w.run_in_thread() for w in workers)), 600)
+
+        for r in range(nround):
+            for path in files:     # touched, content untouched: forces a re-hash
+                st = os.stat(path)
+                os.utime(path, ns=(st.st_atime_ns, st.st_mtime_ns + (r + 1) * 10 ** 9))
+            ctx.case(("concurrent-digests", "ThreadWorker", nfile, r), True)
+            loop = asyncio.new_event_loop()
+            try:
+                results = loop.run_until_complete(jobs())
+            finally:
+                loop.run_until_complete(loop.shutdown_default_executor())
+                loop.close()
+            bad = []
+            for (path, want), res in zip(files.items(), results):
+                got = res.all_hashes[path].digest
+                if got != want or res.messages:
+                    bad.append({"file": os.path.basename(path), "size": os.path.getsize(path), "sha256_of_content": want.hex(),
+                                "digest_from_hash_thread": got.hex(), "messages": res.messages})
+            if bad:
+                ctx.add_failure("oracle", "digest:concurrent", "oracle:file-digest:not-sha256-of-content:concurrent-hash-threads",
+                                f"{len(bad)} of {nfile} files hashed by concurrent ThreadWorker jobs (compute_inp_hashes, one file "
+                                "each, content untouched, mtime bumped) got a digest that is not hashlib.sha256 of their content "
+                                "and / or were reported as changed; the same files hashed one at a time are fine",
+                                witness={"round": r, "concurrent_jobs": nfile, "chunk_size": HASH_CHUNK_SIZE, "wrong": bad[:4]})
+                return
+            # plain threads on compute_file_digest, released together
+            out, barrier = {}, threading.Barrier(nfile)
+
+            def work(p):
+                barrier.wait(60)
+                out[p] = compute_file_digest(p)
+            ts = [threading.Thread(target=work, args=(p,)) for p in files]
+            for t in ts:
+                t.start()
+            for t in ts:
+                t.join(600)
+            ctx.case(("concurrent-digests", "threads", nfile, r), True)
+            wrong = [{"file": os.path.basename(p), "sha256_of_content": files[p].hex(), "compute_file_digest": out.get(p, b"").hex()}
+                     for p in files if out.get(p) != files[p]]
+            if wrong:
+                ctx.add_failure("oracle", "digest:concurrent-threads",
+                                "oracle:file-digest:not-sha256-of-content:concurrent-compute_file_digest",
+                                f"{len(wrong)} of {nfile} concurrent compute_file_digest calls on different files returned a digest "
+                                "that is not hashlib.sha256 of the file", witness={"round": r, "wrong": wrong[:4]})
+                return
+            ctx.count("concurrent_digest_rounds_ok")
+
+
 def oracle(ctx):
     _oracle_guard(ctx)
+    _oracle_concurrent_digests(ctx, 6, ctx.scale(2, 8))
     _oracle_ambiguity(ctx, ctx.scale(60, 1000))
     _oracle_pairs(ctx, ctx.scale(1300, 20000))
     _oracle_json(ctx, ctx.scale(60, 1000))
@@ -1375,6 +1492,7 @@ def oracle(ctx):
 
 def search(ctx):
     """An obligation or the translator broke and nothing produced a witness: run the oracle deeper."""
+    _oracle_concurrent_digests(ctx, 8, 6)
     _oracle_sites(ctx, 40)
     if any(f.witness is not None and f.kind == "oracle" and f.signature.startswith("oracle:site:")
            for f in ctx.failures):
